@@ -234,25 +234,36 @@ fn through_cli(units: &[(Vec<u8>, usize)], rep: &mut Report, args: &Args, case: 
     let mut rf = RefDecoder::new();
     let mut ed = RefEditor::new(cap);
     let mut bytes_seen = sink.0.borrow().bytes.len();
+    let mut inj = Rng::derive(args.seed ^ 0x1C04, args.shard, case);
     let all: Vec<u8> = units.iter().flat_map(|u| u.0.iter().copied()).collect();
     for (ui, (bytes, class)) in units.iter().enumerate() {
         let log0 = rig.proc.log.len();
         let pre = rig.editor();
         let mut keys: Vec<Key> = vec![];
         rep.distinct.insert(hash_u64s(&[41, rf.state_class(), *class as u64, pre.line.is_empty() as u64]));
-        for &b in bytes {
+        let mut out: Vec<u8> = vec![];
+        for (bi, &b) in bytes.iter().enumerate() {
+            // "depends only on the byte sequence": an application call between two bytes -- also in the middle of an
+            // escape sequence, a CR LF pair or a multi-byte character -- must not change what the bytes decode to
+            if inj.chance(3) {
+                let before = rig.editor();
+                let r = if inj.chance(50) { rig.write(&[WCall { kind: WKind::Str, text: "note".into() }]) } else { rig.set_prompt(0) };
+                r.expect("sink never fails");
+                bytes_seen = sink.0.borrow().bytes.len();
+                rep.count(if bi > 0 { "c04.cli.calls_injected_inside_a_unit" } else { "c04.cli.calls_injected_between_units" });
+                if rig.editor() != before {
+                    return; // C13's business
+                }
+            }
             if let Some(k) = rf.accept(b) {
                 keys.push(k);
             }
             rig.byte(b).expect("sink never fails");
+            let s = sink.0.borrow();
+            out.extend_from_slice(&s.bytes[bytes_seen..]);
+            bytes_seen = s.bytes.len();
         }
         let post = rig.editor();
-        let out: Vec<u8> = {
-            let s = sink.0.borrow();
-            let o = s.bytes[bytes_seen..].to_vec();
-            bytes_seen = s.bytes.len();
-            o
-        };
         rep.evaluations += 1;
         rep.count(match class {
             0..=3 => "c04.cli.char_units",
